@@ -225,7 +225,17 @@ func BuildRouterModel(p *Program) (*RouterModel, error) {
 	}
 	if m.SplitFn != nil {
 		if fd := declOfObj(p, m.SplitFn); fd != nil {
-			m.SplitOK, m.SplitWhy = recogniseSplitPath(p, fd)
+			// the contract the model interpreter relies on (splitPathContract), whatever the spelling
+			res := checkSplitPathContract(p, fd)
+			m.SplitOK, m.SplitWhy = res.Why == "", res.Why
+			if p.ProvenSafe == nil {
+				p.ProvenSafe = map[ast.Node]bool{}
+			}
+			if m.SplitOK {
+				for n := range res.Proven {
+					p.ProvenSafe[n] = true
+				}
+			}
 		}
 	}
 	if m.Serve == nil {
@@ -856,6 +866,18 @@ func buildServeModel(p *Program, fd *ast.FuncDecl) *ServeModel {
 	}
 	rw, req := ps[0], ps[1]
 	list := fd.Body.List
+	// equivalent spelling of statements 4 and 5: `if h == nil { fallback } else if hasPath { wrap }` —
+	// the wrap is then unreachable for the fallback by construction (no `hasPath = false` needed)
+	elseForm := false
+	if len(list) == 5 {
+		if ifs, ok := list[3].(*ast.IfStmt); ok && ifs.Init == nil {
+			if e, ok := ifs.Else.(*ast.IfStmt); ok && e.Else == nil && e.Init == nil {
+				first := &ast.IfStmt{If: ifs.If, Cond: ifs.Cond, Body: ifs.Body}
+				list = []ast.Stmt{list[0], list[1], list[2], first, e, list[4]}
+				elseForm = true
+			}
+		}
+	}
 	if len(list) != 6 {
 		und("ServeHTTP has %d top-level statements, the recognised shape has 6", len(list))
 		return sm
@@ -927,10 +949,16 @@ func buildServeModel(p *Program, fd *ast.FuncDecl) *ServeModel {
 	// 4. if h == nil { h = rt.NotFoundHandler; if h == nil { h = http.NotFoundHandler() }; hasPath = false }
 	if ifs, ok := list[3].(*ast.IfStmt); ok && ifs.Else == nil {
 		be, okb := ifs.Cond.(*ast.BinaryExpr)
-		if okb && be.Op == token.EQL && c.isObj(be.X, h) && isNilIdent(be.Y) && len(ifs.Body.List) == 3 {
+		if okb && be.Op == token.EQL && c.isObj(be.X, h) && isNilIdent(be.Y) && (len(ifs.Body.List) == 3 || elseForm && len(ifs.Body.List) == 2) {
 			a1, ok1 := ifs.Body.List[0].(*ast.AssignStmt)
 			i2, ok2 := ifs.Body.List[1].(*ast.IfStmt)
-			a3, ok3 := ifs.Body.List[2].(*ast.AssignStmt)
+			a3, ok3 := &ast.AssignStmt{}, true
+			if len(ifs.Body.List) == 3 {
+				a3, ok3 = ifs.Body.List[2].(*ast.AssignStmt)
+			}
+			if elseForm {
+				sm.HasPathFalse = true
+			}
 			if ok1 && ok2 && ok3 && len(a1.Lhs) == 1 && c.isObj(a1.Lhs[0], h) && c.rtField(a1.Rhs[0]) != nil && a1.Tok == token.ASSIGN {
 				be2, okb2 := i2.Cond.(*ast.BinaryExpr)
 				if okb2 && be2.Op == token.EQL && c.isObj(be2.X, h) && isNilIdent(be2.Y) && len(i2.Body.List) == 1 && i2.Else == nil {
